@@ -434,3 +434,9 @@ def run(ctx):
     rule_attach_detach(ctx)
     rule_reinject(ctx)
     rule_resume_before_return(ctx)
+
+
+def thorough(ctx):
+    # type-level remainder: external code cannot forge the bookkeeping these rules rely on (witnesses W1-W6)
+    from engine import witness
+    return witness.run(ctx, PROPERTY)
